@@ -34,7 +34,8 @@ def main():
         except Exception as e:
             notes = {"summary": "notes.json unreadable: %s" % e}
     d = tempfile.mkdtemp(prefix="seedintake_")
-    meta = {"property": prop, "round": 3, "summary": notes.get("summary"), "needs": notes.get("needs")}
+    rm = re.search(r"-r(\d+)-", sid)
+    meta = {"property": prop, "round": int(rm.group(1)) if rm else 1, "summary": notes.get("summary"), "needs": notes.get("needs")}
     try:
         clean = os.path.join(d, "clean")
         changed = os.path.join(d, "changed")
